@@ -2544,3 +2544,18 @@ mod test {
 		assert_eq!(field20.partial_cmp(&field21).unwrap(), std::cmp::Ordering::Less);
 	}
 }
+
+// verification hook (DESIGN.md of /verif): harnesses live outside the repository and are compiled only under cfg(kani) / cfg(ldk_verif)
+#[cfg(any(kani, ldk_verif))]
+#[allow(missing_docs, dead_code, unused_imports, unused_variables)]
+#[path = "/verif/hooks/invoice_lib.rs"]
+pub mod verif_contracts;
+
+// verification hook: re-exports the out-of-tree contract modules for the native replay binary of /verif
+#[cfg(ldk_verif)]
+#[allow(missing_docs)]
+pub mod verif_api {
+	pub use crate::de::verif_contracts as de;
+	pub use crate::ser::verif_contracts as ser;
+	pub use crate::verif_contracts as lib;
+}
